@@ -225,7 +225,7 @@ def run(tier, rep):
     for lex in G.programs(1):
         items.append((lex, L.LAYOUTS + [('SP', ' ')], 'all'))
     quickl = [x for x in L.LAYOUTS if x[0] in ('LF', 'ML-COMMENT',
-                                               'LF-COMMENT')]
+                                               'LF-COMMENT', 'LS-COMMENT')]
     lays2 = quickl if tier == 'quick' else L.LAYOUTS
     singles = list(G.chains(1, 'S')) + [
         G.as_statement(b) for b in G.chains(1, 'E')]
